@@ -57,6 +57,22 @@ pub fn check_case(c: &NetCase, obs: &mut Obs) -> Result<(), String> {
         let got = engine.get_csp_directives(&req);
         let got_set = got.as_ref().map(|s| split_csp(s, &[]));
         let csp_hits: Vec<&&Parsed> = hits.iter().filter(|p| p.f.is_csp()).collect();
+        // the party restriction of a csp rule, re-read from its text wherever the option stands
+        for p in &csp_hits {
+            let opts = p.line.trim().rsplit_once('$').map(|x| x.1).unwrap_or("");
+            for o in opts.split(',') {
+                let need_third = match o {
+                    "3p" | "third-party" | "~1p" | "~first-party" => Some(true),
+                    "1p" | "first-party" | "~3p" | "~third-party" => Some(false),
+                    _ => None,
+                };
+                if let Some(nt) = need_third {
+                    if req.is_third_party != nt {
+                        return Err(format!("request {:?} (third-party={}): csp rule {:?} is applied although its text restricts it to {} requests", r, req.is_third_party, p.line, if nt { "third-party" } else { "first-party" }));
+                    }
+                }
+            }
+        }
         let n_en = csp_hits.iter().filter(|p| !p.f.is_exception()).filter_map(|p| p.f.modifier_option.clone()).collect::<HashSet<_>>().len();
         let n_dis = csp_hits.iter().filter(|p| p.f.is_exception()).count();
         let blanket = csp_hits.iter().any(|p| p.f.is_exception() && p.f.modifier_option.is_none());
@@ -112,7 +128,7 @@ pub fn check_case(c: &NetCase, obs: &mut Obs) -> Result<(), String> {
 
 pub fn decode(t: &mut Tape) -> NetCase {
     let pats = ["||x.com^", "||sub.x.com^", "/page", "*", "|https://", "||y.org^", "/page.html|"];
-    let dirs = ["script-src 'none'", "script-src 'self'", "img-src *", "worker-src 'none'", "default-src 'self'; report-uri /r", "frame-src 'none'"];
+    let dirs = ["script-src 'none'", "script-src 'self'", "img-src *", "worker-src 'none'", "default-src 'self'; report-uri /r", "frame-src 'none'", "script-src 'sha256-47DEQpj8HBSa+/TImW+5JCeuQeRkm5NMpJWZG3hSuFU=' 'self'", "report-uri https://r.example/c?id=a", "report-uri https://r.example/c?id=b"];
     let mut rules = vec![];
     let nrules = if t.chance(1, 30) { 20 + t.pick(120) } else { 1 + t.pick(10) };
     // long-domain mode: csp rules restricted to initiator lists of one length over a small pool
@@ -144,6 +160,10 @@ pub fn decode(t: &mut Tape) -> NetCase {
         }
         if t.chance(1, 5) {
             opts.push(format!("tag={}", t.choose(gen::TAGS)));
+        }
+        // option order carries no meaning
+        if opts.len() > 1 && t.chance(1, 2) {
+            opts.rotate_left(1);
         }
         rules.push(format!("{}{}${}", if ex { "@@" } else { "" }, p, opts.join(",")));
     }
